@@ -48,17 +48,52 @@ func runC06(c *Ctx) {
 			}
 		}
 		same := c.CallsD(fn, "l.beforeSamePoint(*)")
-		c.MP(fn, "same-point rule: points equal", same, 1, GTrue("point.Equal(l)"))
+		c.MP(fn, "same-point rule: points equal", same, 1, GTrue("point.Point.Equal(l)"))
 		c.MP(fn, "same-point rule: stage not lower", same, 1, GCmp("point.Stage().Compare(l.Stage())", ">=", "0"))
 		c.ArgIs(fn, "same-point rule sees the candidate", same, 1, 0, "point")
 		c.ArgIs(fn, "not-same-point rule sees the candidate", c.CallsD(fn, "l.beforeNotSamePoint(*)"), 1, 0, "point")
+	}
+	// same-height tables: which clauses of the property are visible as gates
+	c.Rule("R06.0b", "MustPass")
+	if fn := c.Need("isaac.(LastPoint).beforeNotSamePoint"); fn != nil {
+		trues := c.ReturnsD(fn, 0, "true")
+		fwd := GCmp("point.Compare(l)", ">", "0")
+		c.MP(fn, "earlier round/stage accepted only for a suffrage-confirm", trues, 2, fwd, GTrue("isSuffrageConfirm"))
+		c.MP(fn, "earlier round/stage accepted only while the last point is not a majority", trues, 2, fwd, GFalse("l.isMajority"))
+		c.MP(fn, "a lower stage is never accepted while the last point is a majority", trues, 2,
+			GFalse("l.isMajority"), GCmp("point.Stage().Compare(l.Stage())", ">=", "0"))
+		for _, r := range nonMatchingReturns(c, fn, 0, "true", "false") {
+			c.Report(fn, "only constant results", c.InstrPos(r), false, c.D(RetVal(r.(*ssa.Return), 0)))
+		}
+	}
+	if fn := c.Need("isaac.(LastPoint).beforeSamePoint"); fn != nil {
+		trues := c.ReturnsD(fn, 0, "true")
+		c.MP(fn, "same point, plain: only after a majority", trues, 1, GTrue("l.isMajority"))
+		c.MP(fn, "same point, plain: never the same stage again", trues, 1, GCmp("point.Stage()", "!=", "l.Stage()"))
+		c.MP(fn, "same point, plain: not a suffrage-confirm", trues, 1, GFalse("isSuffrageConfirm"))
+		other := nonMatchingReturns(c, fn, 0, "true", "false")
+		for _, r := range other {
+			d := c.D(RetVal(r.(*ssa.Return), 0))
+			c.Report(fn, "same point, suffrage-confirm: accepted iff the last point is not a suffrage-confirm", c.InstrPos(r), d == "!l.isSuffrageConfirm", d)
+			c.MP(fn, "suffrage-confirm answer only for suffrage-confirm candidates", []ssaInstr{r}, 1, GTrue("isSuffrageConfirm"))
+		}
+		c.Exists(fn, "suffrage-confirm case present", other, 1)
+	}
+	if fn := c.Need("isaac.findLastVoteproofs"); fn != nil {
+		// the newer of (INIT, ACCEPT) by full point (height and round), not by height alone
+		ivps := c.ReturnsD(fn, 0, "ivp")
+		avps := c.ReturnsD(fn, 0, "avp")
+		c.MP(fn, "INIT voteproof is the last one only if the ACCEPT one is missing or of an earlier point", ivps, 2,
+			GNil("avp"), GCmp("avp.Point().Point.Compare(ivp.Point())", "<", "0"), GCmp("ivp.Point().Point.Compare(avp.Point())", ">", "0"))
+		c.MP(fn, "ACCEPT voteproof is the last one only if the INIT one is missing or not of a later point", avps, 2,
+			GNil("ivp"), GCmp("avp.Point().Point.Compare(ivp.Point())", ">=", "0"), GCmp("ivp.Point().Point.Compare(avp.Point())", "<=", "0"))
 	}
 	if fn := c.Need("isaac.IsNewVoteproofbyPoint"); fn != nil {
 		trues := c.ReturnsD(fn, 0, "true")
 		c.MP(fn, "accept: Before, or (last not majority, new majority, same point, stage not lower) — last not majority", trues, 2,
 			GTrue("last.Before(point, isSuffrageConfirm)"), GFalse("last.isMajority"))
 		c.MP(fn, "accept: … new one is majority", trues, 2, GTrue("last.Before(point, isSuffrageConfirm)"), GTrue("isMajority"))
-		c.MP(fn, "accept: … same point", trues, 2, GTrue("last.Before(point, isSuffrageConfirm)"), GTrue("point.Equal(last)"))
+		c.MP(fn, "accept: … same point", trues, 2, GTrue("last.Before(point, isSuffrageConfirm)"), GTrue("point.Point.Equal(last)"))
 		c.MP(fn, "accept: … stage not lower", trues, 2, GTrue("last.Before(point, isSuffrageConfirm)"), GCmp("point.Stage().Compare(last.Stage())", ">=", "0"))
 		for _, r := range nonMatchingReturns(c, fn, 0, "true", "false") {
 			c.Report(fn, "only constant results", c.InstrPos(r), false, c.D(RetVal(r.(*ssa.Return), 0)))
@@ -147,7 +182,7 @@ func runC06(c *Ctx) {
 		c.MP(fn, "fill ACCEPT slot only when empty", c.StoresD(fn, "&l.last.avp"), 1, GNil("l.last.avp"))
 		c.MP(fn, "fill INIT slot: cached slot empty", c.StoresD(fn, "&l.last.ivp"), 1, GNil("var:cached.ivp"))
 		c.MP(fn, "fill INIT slot: candidate is INIT", c.StoresD(fn, "&l.last.ivp"), 1, GCmp("vp.Point().Stage()", "==", "\"INIT\""))
-		c.MP(fn, "fill INIT slot: same point as the last ACCEPT", c.StoresD(fn, "&l.last.ivp"), 1, GTrue("var:lp.Equal(vp.Point())"))
+		c.MP(fn, "fill INIT slot: same point as the last ACCEPT", c.StoresD(fn, "&l.last.ivp"), 1, GTrue("var:lp.Point.Equal(vp.Point())"))
 		c.MP(fn, "fill ACCEPT slot: candidate is ACCEPT", c.StoresD(fn, "&l.last.avp"), 1, GCmp("vp.Point().Stage()", "==", "\"ACCEPT\""))
 		c.MP(fn, "fill ACCEPT slot: previous height of the last INIT", c.StoresD(fn, "&l.last.avp"), 1, GCmp("lvp.Point().Height()", "==", "(vp.Point().Height() + 1)"))
 	}
